@@ -50,6 +50,8 @@ GROUPS["reader_step"] = {
         ("step_request_more_overlong_source", {"props": ["C14"], "cost": 9, "must_fail_with": ["invariant of std::io::Read trait violated"],
                                                "what": "a source claiming more bytes than its slice: rejected by the load-bearing assert before any state is updated"}),
         ("base_from_read", {"props": ["C02"], "cost": 1, "what": "from_read establishes Inv"}),
+        ("base_from_buf_reader", {"props": ["C02"], "cost": 8, "flags": ["--default-unwind", "6"], "rss_gb": 20,
+                                  "what": "from_buf_reader over a real std BufReader (capacity 2, 0..4 byte stream, any read sizes, any amount pre-buffered and pre-consumed), two refills: the already buffered bytes come first, then the inner source, nothing lost, duplicated or reordered"}),
         ("reach_request_more", {"props": ["C02", "C09", "C10", "C14"], "kind": "reach", "cost": 8, "what": "vacuity twin"}),
     ],
 }
@@ -177,21 +179,21 @@ GROUPS["cnf_token_t0"] = dict(dict(_MODEL, **_SPEC_INJECT), **{
     "timeout": {"quick": 1200, "thorough": 5400},
     "harnesses": [
         ("uint_u8", {"props": ["C06", "C07", "C05", "C04", "C09"], "cost": 4, "what": "cnf uint::<u8>: exact value, end-of-word, trailing blanks, overflow -> Err, look-ahead"}),
-        ("uint_usize", {"props": ["C06", "C07", "C09"], "cost": 5, "what": "cnf uint::<usize>"}),
+        ("uint_usize", {"props": ["C06", "C07", "C09", "C10"], "cost": 5, "what": "cnf uint::<usize>"}),
         ("uint_u64", {"props": ["C06"], "cost": 5, "tiers": T, "what": "cnf uint::<u64>"}),
         ("int_i8", {"props": ["C06", "C07", "C05", "C04"], "cost": 5, "what": "cnf int::<i8>: sign, -0, leading zeros, exact overflow"}),
-        ("int_isize", {"props": ["C06", "C07", "C09", "C01"], "cost": 8, "what": "cnf int::<isize> (the literal scanner)"}),
+        ("int_isize", {"props": ["C06", "C07", "C09", "C01", "C10"], "cost": 8, "what": "cnf int::<isize> (the literal scanner)"}),
         ("uint_u8_real", {"props": ["C06", "C01"], "cost": 9, "tiers": T, "what": "cnf uint::<u8> over the REAL optimised scanner (no spec stub)"}),
         ("uint_usize_real", {"props": ["C06", "C01"], "cost": 9, "tiers": T, "what": "cnf uint::<usize> over the real optimised scanner"}),
         ("int_i8_real", {"props": ["C06", "C01"], "cost": 9, "tiers": T, "what": "cnf int::<i8> over the real optimised scanner"}),
         ("int_isize_real", {"props": ["C06", "C01"], "cost": 9, "tiers": T, "what": "cnf int::<isize> over the real optimised scanner"}),
         ("braced_uint_u8", {"props": ["C06", "C05"], "cost": 4, "what": "braced_uint::<u8>"}),
         ("end_of_word", {"props": ["C07"], "cost": 1, "what": "is_end_of_word <=> blank, CR, LF or end of input"}),
-        ("word_any_pattern", {"props": ["C07", "C09"], "cost": 3, "what": "word(pattern): pattern + end of word, eats trailing blanks"}),
+        ("word_any_pattern", {"props": ["C07", "C09", "C10"], "cost": 3, "what": "word(pattern): pattern + end of word, eats trailing blanks"}),
         ("fixed_any_pattern", {"props": ["C07", "C09"], "cost": 2, "what": "fixed(pattern)"}),
-        ("comment_token", {"props": ["C07", "C08", "C04", "C09"], "cost": 3, "what": "comment: c...LF or c...EOF, then blanks; line accounting"}),
+        ("comment_token", {"props": ["C07", "C08", "C04", "C09", "C10"], "cost": 3, "what": "comment: c...LF or c...EOF, then blanks; line accounting"}),
         ("interactive_strict_comment_token", {"props": ["C07", "C08", "C09"], "cost": 3, "what": "solver-log comment line"}),
-        ("interactive_skip_line_token", {"props": ["C07", "C08", "C09"], "cost": 3, "what": "skip unknown line"}),
+        ("interactive_skip_line_token", {"props": ["C07", "C08", "C09", "C10"], "cost": 3, "what": "skip unknown line"}),
         ("newline_token", {"props": ["C07", "C08"], "cost": 2, "what": "newline = LF | CRLF (then blanks), not a lone CR"}),
         ("interactive_newline_token", {"props": ["C09", "C08", "C07"], "cost": 2, "what": "interactive_newline consumes the newline and requests nothing after it"}),
         ("eof_token", {"props": ["C04", "C07"], "cost": 1, "what": "eof succeeds only at the end of a source that did not fail"}),
@@ -230,15 +232,15 @@ GROUPS["aiger_token_t0"] = dict(dict(_MODEL, **_SPEC_INJECT), **{
         ("fixed_tokens", {"props": ["C05", "C06"], "cost": 2, "what": "fixed / fixed_not_eol"}),
         ("eof_token", {"props": ["C04"], "cost": 1, "what": "eof only at the end of a source that did not fail"}),
         ("uint_u8", {"props": ["C06", "C05", "C04"], "cost": 3, "what": "aiger uint::<u8>: no leading zeros, exact, overflow -> Err"}),
-        ("uint_usize", {"props": ["C06", "C09"], "cost": 3, "what": "aiger uint::<usize>"}),
+        ("uint_usize", {"props": ["C06", "C09", "C10"], "cost": 3, "what": "aiger uint::<usize>"}),
         ("uint_u8_real", {"props": ["C06", "C01"], "cost": 9, "tiers": T, "what": "aiger uint::<u8> over the real optimised scanner"}),
         ("uint_usize_real", {"props": ["C06", "C01"], "cost": 9, "tiers": T, "what": "aiger uint::<usize> over the real optimised scanner"}),
-        ("binary_uint_token", {"props": ["C06", "C05", "C08", "C04", "C09"], "cost": 5, "what": "binary_uint: 7-bit groups, <= 8 bytes, truncated input, location"}),
+        ("binary_uint_token", {"props": ["C06", "C05", "C08", "C04", "C09", "C10"], "cost": 5, "what": "binary_uint: 7-bit groups, <= 8 bytes, truncated input, location"}),
         ("delta_code_token", {"props": ["C06", "C05", "C08"], "cost": 5, "what": "delta_code: delta <= code, result code - delta"}),
         ("limited_header_field", {"props": ["C06", "C08", "C04", "C05"], "cost": 6, "what": "header_field(limit): accepted iff well-formed and <= limit; error at the token"}),
         ("limited_lit", {"props": ["C06", "C08", "C04", "C05"], "cost": 6, "what": "lit(limit, assigning): <= limit; even and non-zero when assigning"}),
         ("limited_symbol_index", {"props": ["C06", "C08", "C05"], "cost": 6, "what": "symbol_index(limit)"}),
-        ("remaining_line_content_ascii", {"props": ["C09", "C08", "C04", "C05"], "cost": 6, "what": "remaining_line_content: name = line without LF, only if the LF is there"}),
+        ("remaining_line_content_ascii", {"props": ["C09", "C08", "C04", "C05", "C10"], "cost": 6, "what": "remaining_line_content: name = line without LF, only if the LF is there"}),
         ("remaining_file_content_ascii", {"props": ["C04", "C08", "C05", "C01"], "cost": 7, "what": "remaining_file_content: comment accepted iff empty or LF-terminated AND the source did not fail"}),
         ("unexpected_total", {"props": ["C05", "C08", "C04"], "cost": 3, "what": "unexpected()"}),
         ("reach_aiger_token", {"kind": "reach", "cost": 2, "what": "vacuity twin"}),
@@ -267,10 +269,10 @@ GROUPS["btor2_token_t0"] = dict(dict(_MODEL, **_SPEC_INJECT), **{
         ("single_byte_tokens", {"props": ["C09", "C08", "C05"], "cost": 1, "what": "btor2 newline / space / comment_start"}),
         ("skip_whitespace_token", {"props": ["C08", "C05"], "cost": 2, "what": "skip_whitespace: spaces and LFs with line accounting"}),
         ("eof_token", {"props": ["C04"], "cost": 1, "what": "eof only at the end of a source that did not fail"}),
-        ("uint_u64", {"props": ["C06", "C05", "C09"], "cost": 4, "what": "btor2 uint: no leading zeros, exact u64"}),
+        ("uint_u64", {"props": ["C06", "C05", "C09", "C10"], "cost": 4, "what": "btor2 uint: no leading zeros, exact u64"}),
         ("positive_and_nonnegative_int", {"props": ["C06", "C08", "C05", "C04"], "cost": 5, "what": "positive_int / nonnegative_int and the location of their range error"}),
-        ("comment_body_token", {"props": ["C04", "C09", "C08"], "cost": 3, "what": "comment_body: up to the LF; not handed out as complete when a failing source cut it short"}),
-        ("symbol_name_token", {"props": ["C09", "C05"], "cost": 3, "what": "symbol_name"}),
+        ("comment_body_token", {"props": ["C04", "C09", "C08", "C10"], "cost": 3, "what": "comment_body: up to the LF; not handed out as complete when a failing source cut it short"}),
+        ("symbol_name_token", {"props": ["C09", "C05", "C10"], "cost": 3, "what": "symbol_name"}),
         ("lowercase_u64_fast_eq_cold", {"props": ["C01", "C09", "C05"], "cost": 6, "what": "BTOR2 keyword scanner: SWAR fast path == cold path == reference, for every buffered amount"}),
         ("lowercase_raw_load_in_bounds", {"props": ["C14"], "cost": 2, "what": "8-byte load of the keyword scanner stays inside the buffered data"}),
         ("required_constants", {"props": ["C06", "C08", "C05"], "cost": 4, "what": "binary / decimal / hex constants"}),
@@ -478,7 +480,7 @@ GROUPS["aiger_ascii_doc"] = dict(GROUPS["aiger_ascii_t3"], **{
     "name": "aiger_ascii_doc",
     "params": {"quick": {"N": 2, "QCAP": 64}, "thorough": {"N": 2, "QCAP": 64}},
     "params": {"quick": {"N": 2, "QCAP": 80}, "thorough": {"N": 2, "QCAP": 80}},
-    "flags": ["--default-unwind", "12"],
+    "flags": ["-Z", "stubbing", "--default-unwind", "12"],
     "harnesses": [
         ("w_ordered_document_order", {"props": ["C03"], "cost": 5, "what": "ascii write_ordered_aig: implicit numbering made explicit (inputs 2,4,.., latch and gate literals consecutive), trailing zero header fields dropped"}),
         ("w_document_order", {"props": ["C03"], "cost": 5, "what": "ascii write_aig emits header, inputs, latches, outputs, bad, constraints, justice sizes, justice literals, fairness, and gates, symbols, comment in the order and shape of the AIGER grammar (symbolic literals, concrete shape)"}),
@@ -614,8 +616,12 @@ GROUPS["solver_log_t2"] = dict(GROUPS["cnf_parser_t2"], **{
     "prefix": "sat_solver_log::verif_log::",
     "overlay": [("flussab-cnf/src/token.rs", "stub", "harness/cnf/token_stub.rs"),
                 ("flussab-cnf/src/sat_solver_log.rs", "log", "harness/cnf/solver_log_t2.rs")],
-    "inject": _stub_injects("flussab-cnf/src/token.rs", _CNF_TOKEN_SPECS),
-    "flags": ["--default-unwind", "4"],
+    # the error branch of parse_log builds its message inline (vec!/join/push_str), which exhausts
+    # CBMC like cnf's unexpected_statement: in harness mode it returns the stub error right away
+    "inject": _stub_injects("flussab-cnf/src/token.rs", _CNF_TOKEN_SPECS)
+              + [("flussab-cnf/src/sat_solver_log.rs", r"\} else \{\n(?=\s*let mut expected = vec!\[\"comment line)",
+                  "            #[cfg(kani)]\n            if crate::token::verif_stub::on() {\n                return Err(crate::token::verif_stub::any_err());\n            }\n")],
+    "flags": ["--default-unwind", "5"],
     "rss_gb": 20,
     "timeout": {"quick": 1000, "thorough": 3600},
     "harnesses": [
@@ -846,13 +852,13 @@ PROPERTIES["C09"] = {
 PROPERTIES["C10"] = {
     "level": "model_checking",
     "groups": ["reader_step"],
-    "claim": "Claimed for the reader (the anchored mechanism): one inductive step of the real request_more from an arbitrary state: the buffer never grows beyond max(old size, cursor' + window + chunk), realign happens iff the cursor is more than two chunks into the buffer (then the cursor returns to 0), shrink at least halves an oversized buffer, no other operation changes the buffer size. By induction the buffer is bounded by the largest look-ahead plus a constant number of chunks, independent of the bytes processed.",
-    "level_note": "Parser-owned buffers (lit_buf, node_buf, ...) and real heap measurement are outside the solver's reach; Vec's amortised growth is trusted.",
-    "functions": ["DeferredReader::request_more", "advance*", "set_*"],
-    "explanation": "Post-conditions on buf.len() in step_request_more and the cursor-movement harnesses.",
-    "bounds_note": "as C02",
-    "outside": ["parser-owned buffers", "heap measurement"],
-    "assumptions": ["as C02"],
+    "claim": "Two links, both SAT-based bounded model checks of real code. (1) Reader (the anchored mechanism): one inductive step of the real request_more from an arbitrary state: the buffer never grows beyond max(old size, cursor' + window + chunk), realign happens iff the cursor is more than two chunks into the buffer (then the cursor returns to 0), shrink at least halves an oversized buffer, no other operation changes the buffer size; by induction the buffer is bounded by the largest look-ahead plus a constant number of chunks, independent of the bytes processed. (2) Largest look-ahead: the tokenizers that scan unbounded items (numbers, words, comments, names) request at most one byte beyond the item itself and consume it at once (ghost high-water mark of requested offsets), so the look-ahead the reader has to hold is bounded by the largest single item, not by what follows it.",
+    "level_note": "Parser-owned buffers (lit_buf, node_buf, ...) are covered only through the T2 harnesses that start from stale buffers (contents = exactly this item); real heap measurement is outside the solver's reach; Vec's amortised growth is trusted.",
+    "functions": ["DeferredReader::request_more", "advance*", "set_*", "cnf::token::{uint, int, word, comment, interactive_skip_line}", "aiger::token::{uint, binary_uint, remaining_line_content}", "btor2::token::{uint, comment_body, symbol_name}"],
+    "explanation": "Post-conditions on buf.len() in step_request_more / step_request_more_shrink_region and the cursor-movement harnesses; check_lookahead on the reader model's ghost counter in the token harnesses.",
+    "bounds_note": "as C02; token windows N bytes",
+    "outside": ["parser-owned buffers beyond 'reset per item'", "heap measurement"],
+    "assumptions": ["as C02", "reader model R (C02) for the token link"],
 }
 
 PROPERTIES["C03"] = {
